@@ -687,7 +687,7 @@ def main(ctx):
 
     object_world(ctx, "several-objects", ["n3", "n8", "n21"], lambda kind: QGauss({"n3": 3, "n8": 8, "n21": 21}[kind]),
                  # explicit point counts only: a call without npts= uses the object's last count by design
-                 [("func", 5), ("func", 12), ("data", 5), ("data", 12)], q_do, q_modules,
+                 [("func", 5), ("func", 12), ("data", 5), ("data", 12)], q_do, q_modules, result_edits=True,
                  depth=ctx.pick(4, 5), check=q_check)
 
     # ------------------------------------------------------------ call sequences
